@@ -20,7 +20,7 @@ PROP = "C16"
 LEVEL = "exploration"
 BUDGET = {
     "quick": {"budget_s": 45, "chunk": 30, "shrink_s": 40},
-    "thorough": {"budget_s": 900, "chunk": 80, "shrink_s": 120},
+    "thorough": {"budget_s": 900, "chunk": 40, "shrink_s": 120, "chunk_wall": 600.0},
 }
 RULE = (
     "cases: a deterministic two-party script of 2-14 steps (item i->w / w->i with fillers up to 200 KB, sub-channel "
